@@ -50,7 +50,7 @@ def gen(rng, tier):
         elif target == 'value':
             ops.append([party, 'value', rng.choice(['set', 'get', 'prop_set', 'prop_get']), rng.choice([0, 1, 7, -3]), v, i])
         elif target == 'maker':
-            ops.append([party, 'maker', rng.choice(['bump', 'bump', 'boom', 'type_error', 'noop', 'raise_lib']), rng.choice([1, 2, 3, 5]), v, i])
+            ops.append([party, 'maker', rng.choice(['bump', 'bump', 'boom', 'type_error', 'noop', 'raise_lib', 'unserializable']), rng.choice([1, 2, 3, 5]), v, i])
         else:
             ops.append([party, 'managed', rng.choice(['make_use', 'nested_use', 'shared_use']), rng.choice([1, 2, 3]), v, i])
     sc = {'ops': ops, 'concurrent': rng.choice([0, 0, 4, 8])}
@@ -243,6 +243,34 @@ def run(sim, sc):
                     sim.violation('inplace:augmented-assignment-rebinds-the-name-to-%s' % ('a-copy' if tname == 'list' else 'something-else'),
                                   {'n': n, 'op': op, 'got_type': tname})
                     break
+                continue
+            if kind == 'maker' and meth == 'unserializable':
+                # the reply cannot be sent: the caller must be told so (an exception, whichever), and the connection must stay usable -
+                # the following operations of this run, issued over the same connection, are judged as usual
+                if party == 'main':
+                    try:
+                        px['maker'].unserializable(a)
+                        got = ('RET', None)
+                    except Exception as e:
+                        got = ('EXC', type(e).__name__)
+                else:
+                    got = ag.cmd('thread_call' if party == 'agent_thread' else 'call', 'maker', 'unserializable', (a,))
+                if got[0] != 'EXC':
+                    sim.violation('unserializable:reply-that-cannot-be-pickled-did-not-raise-in-the-caller', {'n': n, 'op': op, 'got': repr(got)[:200]})
+                    break
+                # same connection, next request
+                if party == 'main':
+                    try:
+                        ok = px['maker'].noop() is None
+                    except Exception as e:
+                        ok = repr(e)[:200]
+                else:
+                    r2 = ag.cmd('call', 'maker', 'noop', ())
+                    ok = True if r2 == ('RET', None) else repr(r2)[:200]
+                if ok is not True:
+                    sim.violation('unserializable:connection-unusable-after-a-reply-that-could-not-be-pickled', {'n': n, 'op': op, 'next_call': ok})
+                    break
+                sim.count('unserializable_reply')
                 continue
             if kind == 'ctl':
                 for k in px:
